@@ -156,10 +156,10 @@ def programs(seed, count, depths=(3, 4, 5, 6), maxlen=3, family='core', payload=
                     payload)
         if top == 'sortgroup':       # a sort / groupby on top of a random pipeline
             if rng.random() < 0.7:
-                p = {'op': 'sort', 'key': rng.choice(['none', 'id', 'neg', 'mod2', 'const']),
+                p = {'op': 'sort', 'key': rng.choice(['none', 'id', 'neg', 'mod2', 'const', 'big', 'biginf']),
                      'rev': rng.random() < 0.5, 'in': p}
             else:
-                p = {'op': 'group', 'g': rng.choice(['mod2', 'const', 'id']),
+                p = {'op': 'group', 'g': rng.choice(['mod2', 'const', 'id', 'fs2', 'mix2']),
                      'sel': rng.choice([0, 1, 2, 3, 7]), 'in': p}
         out.append(p)
     return out
